@@ -125,14 +125,23 @@ proof fn lemma_rooted_update_open(s: Seq<Event>, i: int, e: Event)
 // the empty range at the end of the text: `TextRange::empty(TextSize::from(src.len() as u32))`
 spec fn eof_range(src: &str) -> TextRange { TextRange { start: src.len() as u32, end: src.len() as u32 } }
 // an error range is the whole range of one of the parser's tokens, or the empty range at the end of the text
-spec fn err_range_ok(tokens: Seq<LexToken>, src: &str, r: TextRange) -> bool {
-    (exists|i: int| 0 <= i < tokens.len() && (#[trigger] tokens[i]).range == r) || r == eof_range(src)
+spec fn err_range_ok(tokens: Seq<LexToken>, eof: TextRange, r: TextRange) -> bool {
+    (exists|i: int| 0 <= i < tokens.len() && (#[trigger] tokens[i]).range == r) || r == eof
 }
 
+// opaque, and a function of the three things it depends on: for everything but Parser::error the frame clause
+// `old.errs_ok() ==> new.errs_ok()` then follows by congruence, without the quantifier ever being unfolded
+#[verifier::opaque]
+spec fn errs_ok3(tokens: Seq<LexToken>, eof: TextRange, errors: Seq<Error>) -> bool {
+    forall|j: int| 0 <= j < errors.len() ==> err_range_ok(tokens, eof, (#[trigger] errors[j]).range)
+}
+proof fn lemma_errs_push(tokens: Seq<LexToken>, eof: TextRange, errors: Seq<Error>, e: Error)
+    requires errs_ok3(tokens, eof, errors), err_range_ok(tokens, eof, e.range)
+    ensures errs_ok3(tokens, eof, errors.push(e))
+{ reveal(errs_ok3); }
+
 impl<'i> Parser<'i> {
-    spec fn errs_ok(&self) -> bool {
-        forall|j: int| 0 <= j < self.errors@.len() ==> err_range_ok(self.tokens@, self.src, (#[trigger] self.errors@[j]).range)
-    }
+    spec fn errs_ok(&self) -> bool { errs_ok3(self.tokens@, eof_range(self.src), self.errors@) }
     spec fn kind_at(&self, i: int) -> SyntaxKind {
         if 0 <= i < self.tokens@.len() { self.tokens@[i].kind } else { SyntaxKind::EOF }
     }
